@@ -2980,6 +2980,9 @@ func handlePanic() {
 	}
 }
 
+// maxSwampNameLength is the longest swamp name the storage format can record (v2.MaxNameLength).
+const maxSwampNameLength = 65535
+
 // checkSwampName check if the swamp name is valid and exist or not.
 // The function will return a grpc error message if the swamp name is invalid or does not exist.
 func checkSwampName(zeusInterface zeus.Zeus, islandID uint64, inputSwampName string, checkExist bool) (name.Name, error) {
@@ -2988,6 +2991,10 @@ func checkSwampName(zeusInterface zeus.Zeus, islandID uint64, inputSwampName str
 	if inputSwampName == "" {
 		// return with grpc error message
 		return nil, status.Error(codes.InvalidArgument, "SwampName cannot be empty")
+	}
+	// the storage file header keeps the name length in 16 bits
+	if len(inputSwampName) > maxSwampNameLength {
+		return nil, status.Error(codes.InvalidArgument, "SwampName cannot be longer than 65535 bytes")
 	}
 	swampName := name.Load(inputSwampName)
 
